@@ -336,9 +336,12 @@ package xy
 // ---------------------------------------------------------------------------
 // C11: point location wrappers
 
+// the documented precondition ("ring ... must have first point identical to last point") is part of the contract:
+// the ray-crossing count walks consecutive pairs only, so an open ring silently loses its closing edge
 //@ func LocatePointInRing
 //@   floats real
 //@   requires len(p) >= 2 && strideOf(layout) >= 2 && whole(len(ring), strideOf(layout))
+//@   requires [closed-ring] len(ring) >= strideOf(layout) ==> ring[0] == ring[len(ring)-strideOf(layout)] && ring[1] == ring[len(ring)-strideOf(layout)+1]
 //@   ensures [boundary-sound] res == 1 ==> ringOn(p[0], p[1], cells(ring), off(ring), strideOf(layout), cnt(len(ring), strideOf(layout)) - 1)
 //@   ensures [boundary-complete] ringOnX(p[0], p[1], cells(ring), off(ring), strideOf(layout), cnt(len(ring), strideOf(layout)) - 1) ==> res == 1
 //@   ensures [parity] res != 1 ==> (res == 0 <==> ringCross(p[0], p[1], cells(ring), off(ring), strideOf(layout), cnt(len(ring), strideOf(layout)) - 1) % 2 == 1) && (res == 0 || res == 2)
@@ -347,6 +350,7 @@ package xy
 //@ func IsPointInRing
 //@   floats real
 //@   requires len(p) >= 2 && strideOf(layout) >= 2 && whole(len(ring), strideOf(layout))
+//@   requires [closed-ring] len(ring) >= strideOf(layout) ==> ring[0] == ring[len(ring)-strideOf(layout)] && ring[1] == ring[len(ring)-strideOf(layout)+1]
 //@   ensures !ringOn(p[0], p[1], cells(ring), off(ring), strideOf(layout), cnt(len(ring), strideOf(layout)) - 1) ==> (res <==> ringCross(p[0], p[1], cells(ring), off(ring), strideOf(layout), cnt(len(ring), strideOf(layout)) - 1) % 2 == 1)
 //@   ensures ringOnX(p[0], p[1], cells(ring), off(ring), strideOf(layout), cnt(len(ring), strideOf(layout)) - 1) ==> res
 //@   modifies nothing
@@ -449,6 +453,7 @@ package xy
 //@     invariant q >= 0 && i == mul(q, calc.stride) && mul(q + 1, calc.stride) == mul(q, calc.stride) + calc.stride && len(polyPts) == mul(cnt(len(polyPts), calc.stride), calc.stride) && i <= len(polyPts)
 //@     invariant fresh(reducedSet) && reducedSet.layout == calc.layout && reducedSet.size >= 0 && (q > 0 ==> reducedSet.size >= 1)
 //@   loop 2:
+//@     invariant whole(len(ring), calc.stride) && len(ring) >= 3 * calc.stride && ring[0] == ring[len(ring)-calc.stride] && ring[1] == ring[len(ring)-calc.stride+1]
 //@     ghost q2 int = 0 step q2 + 1
 //@     invariant q2 >= 0 && i == mul(q2, calc.stride) && mul(q2 + 1, calc.stride) == mul(q2, calc.stride) + calc.stride && len(inputPts) == mul(cnt(len(inputPts), calc.stride), calc.stride) && i <= len(inputPts)
 //@     invariant fresh(reducedSet) && reducedSet.layout == calc.layout && reducedSet.size >= 1
